@@ -1233,11 +1233,17 @@ class PyCdlib:
                     new_record.parent.track_child(new_record,
                                                   self.logical_block_size, True)
 
-                if is_pvd:
+                if is_pvd and not dots:
+                    # The identifiers of the dot and dotdot records (0x00 and
+                    # 0x01) are the same at all levels and say nothing about
+                    # the level of the ISO.
                     if new_record.is_dir():
                         new_level = _interchange_level_from_directory(new_record.file_identifier())
                     else:
                         new_level = _interchange_level_from_filename(new_record.file_identifier())
+                        if new_record.file_flags & (1 << dr.DirectoryRecord.FILE_FLAG_MULTI_EXTENT_BIT):
+                            # Files in more than one extent need level 3.
+                            new_level = 3
                     interchange_level = max(interchange_level, new_level)
 
                 last_record = new_record
